@@ -429,7 +429,7 @@ PROPS["C05"] = dict(
     namespaces=["SqlVerif.Props.C05", "SqlVerif.Props.C05Query"],
     required=["SqlVerif.Props.C05.content_preserved_partial", "SqlVerif.Props.C05.content_preserved_expr",
               "SqlVerif.Props.C05.keywords_are_not_content", "SqlVerif.Props.C05.content_excluded_escape_word",
-              "SqlVerif.Props.C05.content_excluded_quoted_placeholder", "SqlVerif.Props.C05.loop_run",
+              "SqlVerif.Props.C05.content_quoted_placeholder_kept", "SqlVerif.Props.C05.loop_run",
               "SqlVerif.Props.C05.loop_consumes_all", "SqlVerif.Props.C05.script_consumes_all", "SqlVerif.Props.C05.no_statement_only_at_eof",
               "SqlVerif.Props.C05Query.query_content_preserved_partial",
               "SqlVerif.Props.C05Query.query_content_preserved_stmt",
